@@ -417,15 +417,16 @@ def family_a(ctx, focus):
 
 
 def half_duplex_ok(actions):
-    """A behaviour is in the HTTP domain when the client closes its send side
-    before any handler send and before receiving."""
+    """A behaviour is in the HTTP domain when, until the client has closed its
+    send side or the context has ended, the handler neither replies nor
+    returns and the client does not wait for a reply."""
     closed = False
     for name, arg in actions:
-        if name == "StartClose":
+        if name in ("StartClose", "Cancel"):
             closed = True
         if name in ("StartHSend", "StartSendHeader", "StartRecv", "StartHeader", "HReturnDo") and not closed:
             return False
-    return closed
+    return True
 
 
 def handle_model_counterexample(ctx, r, kind):
@@ -452,31 +453,31 @@ def run_pinned(ctx):
 
 
 def check_C01(ctx):
-    family_a(ctx, {})
+    family_a(ctx, {"nfree_q": 200, "nfree_t": 5000})
 
 
 def check_C02(ctx):
-    family_a(ctx, {})
+    family_a(ctx, {"extra": [("card", 45), ("early", 45)]})
 
 
 def check_C03(ctx):
-    family_a(ctx, {})
+    family_a(ctx, {"nsim_q": 220, "nsim_t": 3500})
 
 
 def check_C04(ctx):
-    family_a(ctx, {})
+    family_a(ctx, {"nunary_q": 300, "nunary_t": 3000, "nsim_q": 220, "nsim_t": 3500})
 
 
 def check_C05(ctx):
-    family_a(ctx, {})
+    family_a(ctx, {"extra": [("early", 90), ("stall", 45)]})
 
 
 def check_C08(ctx):
-    family_a(ctx, {})
+    family_a(ctx, {"extra": [("card", 135)]})
 
 
 def check_C20(ctx):
-    family_a(ctx, {})
+    family_a(ctx, {"extra": [("stall", 150)]})
 
 
 CHECKS = {
